@@ -17,9 +17,9 @@ ResetTo(sizes) ==
 
 Step(ev) ==
   CASE ev.a = "init"     -> ResetTo(ev.arg.sizes)
-    [] ev.a = "set"      -> Set(ev.arg.id, ev.arg.data, ev.arg.mode)
+    [] ev.a = "set"      -> Set(ev.arg.id, ev.arg.data, ev.arg.mode, ev.arg.fail)
     [] ev.a = "setraw"   -> SetRaw(ev.arg.id, ev.arg.n)
-    [] ev.a = "copy"     -> Copy(ev.arg.id, ev.arg.src)
+    [] ev.a = "copy"     -> Copy(ev.arg.id, ev.arg.src, ev.arg.fail)
     [] ev.a = "copynull" -> CopyNull(ev.arg.id)
     [] ev.a = "compare"  -> Compare(ev.arg.id, ev.arg.data, ev.arg.mode)
     [] ev.a = "inequal"  -> Inequal(ev.arg.id, ev.arg.other)
@@ -27,7 +27,7 @@ Step(ev) ==
     [] ev.a = "fini"     -> Fini(ev.arg.id)
     [] ev.a = "make"     -> Make(ev.arg.id, ev.arg.size, ev.arg.how,
                                  IF ev.arg.how = "init" THEN InitMax(ev.arg.size) ELSE ev.dbg.max[ev.arg.id])
-    [] ev.a = "tinit"    -> TInit(ev.arg.id, ev.arg.src)
+    [] ev.a = "tinit"    -> TInit(ev.arg.id, ev.arg.src, ev.arg.fail)
     [] OTHER             -> FALSE
 
 (* slots beyond the recorded ones are dead and not logged *)
@@ -38,7 +38,7 @@ IdsMatch(e, o) ==
 
 Matches(ev) ==
   LET e == obs'.exp IN
-  /\ e.ret = ev.obs.ret
+  /\ (e.ret # "any" => e.ret = ev.obs.ret)
   /\ IdsMatch(e.ids, ev.obs.ids)
   /\ e.orphans = ev.obs.orphans
   /\ e.badfree = ev.obs.badfree
